@@ -191,10 +191,19 @@ func mustPassFrom(f *ssa.Function, from *ssa.BasicBlock, pred func(ssa.Instructi
 		if targets[b] {
 			return false
 		}
-		q = append(q, b.Succs...)
+		for i, sc := range b.Succs {
+			if edgeFeasible != nil && !edgeFeasible(b, i) {
+				continue
+			}
+			q = append(q, sc)
+		}
 	}
 	return true
 }
+
+// edgeFeasible, when set, prunes branch edges from the must-pass searches (see
+// withAssumptions: edges contradicting the key of a dispatch-table call).
+var edgeFeasible func(b *ssa.BasicBlock, succ int) bool
 
 // ------------------------------------------------------------------ facts
 
@@ -629,6 +638,18 @@ func pathAssignments(fn *ssa.Function, site ssa.Instruction, name func(ssa.Value
 
 // pathAssignmentsV additionally returns the SSA value behind each atom name.
 func pathAssignmentsV(fn *ssa.Function, site ssa.Instruction, name func(ssa.Value) string) (envs []map[string]bool, atomVal map[string]ssa.Value, complete bool) {
+	return pathAssignmentsW(fn, site, name, nil)
+}
+
+// pathAssignmentsRet: the paths to the return `ret` of a boolean function on which
+// the returned value equals want (the value may be a φ of constants and atoms: a path
+// that delivers the other constant is dropped, a path that delivers an atom decides it).
+func pathAssignmentsRet(fn *ssa.Function, ret *ssa.Return, want bool, name func(ssa.Value) string) (envs []map[string]bool, complete bool) {
+	envs, _, complete = pathAssignmentsW(fn, ret, name, &want)
+	return
+}
+
+func pathAssignmentsW(fn *ssa.Function, site ssa.Instruction, name func(ssa.Value) string, retWant *bool) (envs []map[string]bool, atomVal map[string]ssa.Value, complete bool) {
 	atomVal = map[string]ssa.Value{}
 	type state struct {
 		atoms map[string]bool
@@ -726,6 +747,25 @@ func pathAssignmentsV(fn *ssa.Function, site ssa.Instruction, name func(ssa.Valu
 		seen[k] = true
 		for _, ins := range b.Instrs {
 			if ins == site {
+				if ret, isRet := site.(*ssa.Return); isRet && retWant != nil && len(ret.Results) == 1 {
+					pv := resolve(ret.Results[0], s)
+					switch {
+					case pv.isConst:
+						if pv.val != *retWant {
+							return // this path returns the other value
+						}
+					case pv.atom != "":
+						val := *retWant != pv.neg
+						if av, ok := s.atoms[pv.atom]; ok {
+							if av != val {
+								return
+							}
+						} else {
+							s = clone(s)
+							s.atoms[pv.atom] = val
+						}
+					}
+				}
 				envs = append(envs, s.atoms)
 				return
 			}
